@@ -326,6 +326,10 @@ func (c *Ctx) ruleU3(rule string) {
 					lenB = true
 				}
 			}
+			if gs := x.GuardsOfInLoop(st.Block()); len(gs) > 0 {
+				why = "the store is conditional inside the instance loop (" + x.describeGuards(gs) + ")"
+				return
+			}
 			if (isMax && x.Origin(mb) == gp) || lenB {
 				okLoop = true
 			} else {
